@@ -21,8 +21,8 @@ CHECKS = {
         text="Partial (structural theorem + audit + schedules). C17_audit_clean: typstyle-core has no static/thread_local/lazy/once cell, no RefCell/Mutex/atomic field, no unsafe, no environment/time/randomness/thread-identity/file access, and uses its hash containers only through insert/get/entry/contains (never an order-exposing method); the only state is in the cfg-guarded verification hooks - the lists are regenerated from the Rust sources on every run and proved empty by reflexivity, so adding a cache, a counter or an iteration over a HashMap breaks the proof obligation itself. C17_history_independent / C17_order_independent: with that state (unit), every call in every history and interleaving returns format_source's value. K9: the same (text, config) set formatted sequentially, from 16 threads in shuffled orders and in three processes must be byte-identical (and equals the model, K5).",
         note="Trusted: Coq kernel; the regex translator gen_audit.py (reports by shape; state hidden behind a macro or inside a dependency is outside its reach); thread scheduling, allocator and dependencies' globals are runtime: K9 is testing.",
         design='§4 C17'),
-    'C18': dict(technique="Coq proofs of a cost calculus for the counter monad and of 'at most once per child' for the flow/list/plain stylists over the converter model whose counter IS the formatter's own definition + K7: exact equality of the implementation's hooked counter with the model's on every case + growth oracle on nested families",
-        text="Partial proof. The model's monad carries the conversion counter, bumped at exactly the four hooked entry points, so Cost and the converter are one definition. Proved: costs add along bind and folds (C18_costs_bind, C18_costs_fold); each stylist hands every child to the item converter at most once, whatever the converter (C18_flow_once_per_child, C18_list_once_per_child, C18_plain_once_per_child). Stated, not yet proved over all converters: C18_full (counter <= 3 * nodes). Tie K7: the implementation's counter must EQUAL the model's on every case (a 'convert, fall back and convert again' edit shows on the first nested input). Oracle: conversions per syntax node (<= 3; measured max 1.0) over all streams and nested families at doubling depths.",
+    'C18': dict(technique="Coq proof, by induction over the tree and one cost lemma per converter, that the converter model's conversion counter (the formatter's own counter: the monad state) advances by at most 3 per syntax node for every input, request, configuration and nesting + K7: exact equality of the implementation's hooked counter with the model's on every case + the theorem's schema hypothesis evaluated on every parsed tree + growth oracle on nested families",
+        text="Proof. The model's monad carries the conversion counter, bumped at exactly the four hooked entry points, so cost and converter are one definition. Proved (CostBound.v; Properties/C18.v): C18_conversions_linear — for every width oracle, configuration, tree satisfying the schema clause wfc, and request, call (build t) r advances the counter by at most 3 * tree_size t, whatever the nesting depth; C18_root for whole documents; the cost calculus (C18_costs_bind, C18_costs_fold) and 'each stylist hands every child to the item converter at most once' (C18_flow/list/plain_once_per_child). wfc (MathDelimited starts/ends with an expression, Binary has no operator before its first operand, Args has its left parenthesis first) is the part of the parser's schema the bound depends on; the extracted wfc is evaluated on every tree the parser hands over and the model's tree_size is compared with the implementation's node count. Tie K7: the implementation's counter must EQUAL the model's on every case (a 'convert, fall back and convert again' edit shows on the first nested input). Oracle: conversions per syntax node (<= 3; measured max 1.0) over all streams and nested families at doubling depths. Rendering cost (the pretty crate) is outside the statement.",
         note='Trusted: Coq kernel; the four cfg-guarded bump hooks (MANIFEST.hooks); rendering cost (pretty) is outside the statement as in the property.',
         design='§4 C18'),
     'C19': dict(technique="Coq proofs (Permutation/StronglySorted of the model's stable insertion sort; gate lemmas) over the converter model's import_items_order + K5 with the flag on and off + item-sequence oracle",
